@@ -296,6 +296,20 @@ func (idx *IVFPQIndex) Add(vector VectorNode) error {
 		return err
 	}
 
+	// Re-adding a soft-deleted ID replaces the stale entry instead of hiding the new one
+	if idx.deletedNodes.Contains(vector.ID()) {
+		for li := range idx.lists {
+			kept := make([]CompressedVector, 0, len(idx.lists[li]))
+			for _, cv := range idx.lists[li] {
+				if cv.Node.ID() != vector.ID() {
+					kept = append(kept, cv)
+				}
+			}
+			idx.lists[li] = kept
+		}
+		idx.deletedNodes.Remove(vector.ID())
+	}
+
 	// Find nearest IVF centroid
 	listIdx := FindNearestCentroidIndex(vector.Vector(), idx.centroids, idx.distance)
 
